@@ -55,6 +55,9 @@ func (a *App) Handle(ctx context.Context, rpc string, req proto.Message) (proto.
 	b := call.Op.App
 	if b.DelayMs > 0 {
 		time.Sleep(time.Duration(b.DelayMs) * time.Millisecond)
+		// handlers that wake at the same virtual instant continue in the order the schedule
+		// picks, not in the order the runtime happened to wake them
+		k.Yield(call, "handler-wake")
 	}
 	resp, err := a.behave(ctx, call, rpc, req)
 	if cn == nil || !cn.dup {
